@@ -233,6 +233,13 @@ def run_streams(prop, tier, seed, search=False):
             s0 = b["start"]
             io = impl_out[s0:s0 + len(block)]
             d = {"line": b["line"], "impl": b["impl"], "model": b["model"], "block": block, "oracle": None}
+            if st.get("mode") != "spec":
+                # the case that ran just before it in the same process (state kept between calls
+                # - a cache, a shared default - only shows with it)
+                k = s0 - 1
+                while k > 0 and not lines[k].startswith("case "):
+                    k -= 1
+                d["earlier_case"] = lines[k:s0] if s0 > 0 else []
             if st.get("oracle"):
                 d["oracle"] = st["oracle"](block, io)
             dis.append(d)
@@ -328,7 +335,9 @@ def replay(prop, path):
         print("replay names a broken proof obligation / translator site; nothing to re-execute")
         return 0
     st = [s for s in streams_for(prop) if s["name"] == rec.get("stream")] or streams_for(prop)[:1]
-    bad, stats, io, mo = corr.correspond(block, st[0]["impl"])
+    ctx = rec.get("earlier_case_in_the_same_process") or []
+    bad, stats, io, mo = corr.correspond(ctx + block, st[0]["impl"])
+    io, mo = io[len(ctx):], mo[len(ctx):]
     for ln, a, b in zip(block, io, mo):
         print(ln); print("   impl :", a[:400]); print("   model:", b[:400])
     if st[0].get("oracle"):
